@@ -656,6 +656,8 @@ class Inventory:
             s.ok = False
             s.fail = why
             s.opaque = None
+            if why and 'more than one definition' in str(why):
+                s.opaque = 'a queue that is reassigned or returned by a helper, whose size the element counter does not track'
             for t in terms:
                 s.opaque = s.opaque or opaque_container(t, self.facts.bodies.get(s.fn), self.lemma_applicable)
                 for x in subterms(t):
